@@ -5,11 +5,22 @@ Differential (translation-validation style): the oracle for the TEXT is GNU read
 registry) is the generator of the description sweep - one image per entry of every ELF-level
 description table the clone has - and the definition of the supported envelope.  The tolerance
 rules are a vendored copy of the project's compare_output (vf/c18_compare.py), so loosening the
-repository's runner cannot loosen this check."""
+repository's runner cannot loosen this check.
+
+Cross-writer sweep (vf/c18_writers.py): the images the WRITERS of the other properties'
+specifications emit (Versions, Notes, Dynamic, SymHash, Reloc, Attrs, ElfImage, LineProgram, CFI,
+DieTree) are dumped by both tools under the option that prints the structure the writer builds.
+spec/ReadelfEnvelopeV.tla renders the Versions writer's objects as loadable dynamic objects (GNU
+readelf reads .gnu.version through DT_VERSYM and the program headers); spec/ReadelfEnvelope.tla
+puts the section contents the DWARF-level writers emit into an ELF container with Elf!Chunks.
+GNU readelf is the oracle only where it accepts the image without complaint (exit status 0, no
+"readelf: Warning/Error", no bytes >= 0x80 in the text); every other restriction of the envelope
+is a predicate on the emitted case with a stated reason, counted in the evidence."""
 import importlib.util
 import io
 import json
 import os
+import re
 import subprocess
 import sys
 import tempfile
@@ -72,7 +83,7 @@ def _clone(option, path):
         _mod = importlib.util.module_from_spec(spec)
         spec.loader.exec_module(_mod)
     out = io.StringIO()
-    argv, sys.argv = sys.argv, ['readelf.py', option, path]
+    argv, sys.argv = sys.argv, ['readelf.py'] + option.split() + [path]
     err, sys.stderr = sys.stderr, io.StringIO()
     rc = 0
     try:
@@ -88,21 +99,41 @@ def _clone(option, path):
     return rc, out.getvalue()
 
 
-def _gnu(option, path):
-    p = subprocess.run([READELF, option, path], stdout=subprocess.PIPE, stderr=subprocess.PIPE,
-                       env=dict(os.environ, LC_ALL='C'), timeout=300)
-    return p.returncode, p.stdout.decode('latin-1')
+def _gnu(option, path, timeout=300):
+    p = subprocess.run([READELF] + option.split() + [path], stdout=subprocess.PIPE, stderr=subprocess.PIPE,
+                       env=dict(os.environ, LC_ALL='C'), timeout=timeout)
+    return p.returncode, p.stdout.decode('latin-1'), p.stderr.decode('latin-1')
+
+
+def signature(msg):
+    """Development aid: a diff message with the numbers blanked."""
+    import re
+    m = re.search(r'>>(.*)<<\n>>(.*)<<', str(msg))
+    if not m:
+        return str(msg)[:80]
+    return re.sub(r'[0-9a-f]{2,}|\d', '#', m.group(1))[:70] + ' | ' + re.sub(r'[0-9a-f]{2,}|\d', '#', m.group(2))[:70]
 
 
 def _one(job):
     kind, name, option, path = job
     try:
-        rc1, out1 = _gnu(option, path)
+        try:
+            rc1, out1, err1 = _gnu(option, path, 300 if kind != 'writer' else 30)
+        except subprocess.TimeoutExpired:
+            if kind != 'writer':
+                raise
+            return (kind, name, option, 'oracle_rc', 'timeout')     # a generated image the oracle does not finish on: outside the envelope
+        if rc1 != 0:
+            return (kind, name, option, 'oracle_rc', rc1)      # the oracle itself refuses the file: outside the envelope
+        if kind == 'writer' and ('readelf: Warning' in err1 or 'readelf: Error' in err1):
+            # generated images: GNU readelf is the oracle only where it accepts the input without complaint
+            return (kind, name, option, 'oracle_warn', err1.strip().splitlines()[0][:120])
+        if kind == 'writer' and any(ord(ch) >= 128 for ch in out1):
+            # names with bytes >= 0x80: what reaches the terminal depends on the encoding of stdout, which the property does not fix
+            return (kind, name, option, 'oracle_warn', 'output with bytes >= 0x80 (terminal-encoding dependent)')
         rc2, out2 = _clone(option, path)
     except Exception as ex:                     # noqa
         return (kind, name, option, 'machinery', '%s:%s' % (type(ex).__name__, ex))
-    if rc1 != 0:
-        return (kind, name, option, 'oracle_rc', rc1)      # the oracle itself refuses the file: outside the envelope
     if rc2 != 0:
         return (kind, name, option, 'clone_rc', str(rc2))
     ok, msg = compare_output(out1, out2)
@@ -112,13 +143,22 @@ def _one(job):
 def check(run):
     if not os.path.exists(READELF):
         raise core.MachineryError('GNU readelf not found at ' + READELF)
-    run.rule = ('programs = (file, option) pairs: the readelf regression corpus x 18 options (minus the documented exclusions) and the '
-                'description sweep images (one per entry of each ELF-level description table of the clone, generated by spec/Envelope.tla); '
-                'each pair runs GNU readelf 2.40 and the clone and compares under the vendored tolerance rules')
+    run.rule = ('programs = (file, option) pairs: the readelf regression corpus x 18 options (minus the documented exclusions), the '
+                'description sweep images (one per entry of each ELF-level description table of the clone, generated by spec/Envelope.tla) '
+                'and the cross-writer sweep (a deterministic sample of the images the writers of the other properties\' specifications emit, '
+                'under the option that dumps the structure: see coverage.writers for images offered / refused by the oracle / compared per '
+                'source); each pair runs GNU readelf 2.40 and the clone and compares under the vendored tolerance rules')
     run.assumptions += ['GNU binutils readelf 2.40 is the oracle for the text; the project targets >= 2.41: pairs that differ only because of '
                         'the older oracle are excluded with the reason (ORACLE_SKEW)',
-                        'the clone is run in-process through its main(stream); 1 pair in 40 is repeated through a real subprocess']
+                        'the clone is run in-process through its main(stream); 1 pair in 40 is repeated through a real subprocess',
+                        'cross-writer sweep: an image is outside the envelope when GNU readelf exits non-zero or prints "readelf: Warning/Error" '
+                        'for it, or when the source\'s envelope predicate names a reason (counted per reason in coverage.writers)']
     jobs = []
+    # ---- cross-writer sweep: the TLC runs of the other properties' writers start now, in background threads
+    from . import c18_sweep, c18_writers
+    tmpd = tempfile.mkdtemp(prefix='verif_c18_', dir=run.tmp)
+    # (the description sweep's two TLC runs below use ~1/3 of the cores meanwhile)
+    writers = c18_writers.Sweep(run, tmpd, slots=max(2, core.NPROC - core.NPROC // 3)).start()
     cdir = os.path.join(core.REPO, 'test', 'testfiles_for_readelf')
     files = sorted(f for f in os.listdir(cdir) if f.endswith('.elf') and os.path.getsize(os.path.join(cdir, f)) > 0)
     skipped = {}
@@ -130,42 +170,60 @@ def check(run):
                 continue
             jobs.append(('corpus', f, opt, os.path.join(cdir, f)))
     # ---- description sweep: images from the specification
-    from . import c18_sweep
-    tmpd = tempfile.mkdtemp(prefix='verif_c18_', dir=run.tmp)
     sweep_jobs = c18_sweep.generate(run, tmpd)
     sweep_jobs += c18_sweep.geometry_jobs(run, tmpd)
     jobs += sweep_jobs
     with Pool(min(16, core.NPROC)) as pool:
-        results = pool.map(_one, jobs, chunksize=4)
+        # the corpus and the description sweep are compared while the writers' TLC runs finish
+        pending = pool.map_async(_one, jobs, chunksize=4)
+        wjobs, wstats, wmeta = writers.finish()
+        results = pending.get() + pool.map(_one, wjobs, chunksize=4)
+    jobs += wjobs
     programs = 0
     diffs = 0
     outside = 0
     for kind, name, option, verdict, msg in results:
         if verdict == 'machinery':
             raise core.MachineryError('%s %s: %s' % (name, option, msg))
-        if verdict == 'oracle_rc':
+        wst = wstats[name.split('#')[0]] if kind == 'writer' else None
+        if verdict in ('oracle_rc', 'oracle_warn'):
             outside += 1
+            if wst is not None:
+                wst.setdefault('oracle_refused', {})
+                why = 'exit status %s' % msg if verdict == 'oracle_rc' else re.sub(r'\d+', 'N', str(msg))
+                wst['oracle_refused'][why] = wst['oracle_refused'].get(why, 0) + 1
             continue
         programs += 1
         run.count((kind, name, option), nontrivial=True)
+        if wst is not None:
+            wst['compared'] = wst.get('compared', 0) + 1
         if verdict == 'ok':
             run.validated += 1
+            if wst is not None:
+                wst['agreed'] = wst.get('agreed', 0) + 1
             continue
         diffs += 1
         tag = '%s:%s' % (name if kind == 'corpus' else ':'.join(name.split('#')[:2]), option)
-        run.mismatch('readelf.' + kind + ('.crash' if verdict == 'clone_rc' else ''), tag,
-                     {'kind': kind, 'file': name, 'option': option}, 'output of GNU readelf 2.40', msg)
+        case = {'kind': kind, 'file': name, 'option': option}
+        if kind == 'writer':
+            c = wmeta[(name, option)]
+            data = concretise(c['chunks'])
+            case['image_b64'] = core.b64(data) if len(data) <= 6000 else None
+        run.mismatch('readelf.' + kind + ('.crash' if verdict == 'clone_rc' else ''), tag, case, 'output of GNU readelf 2.40', msg)
     # in-process route == real subprocess route (sampled)
     sub_checked = 0
     for job in jobs[::40]:
         kind, name, option, path = job
-        p = subprocess.run([sys.executable, os.path.join(core.REPO, 'scripts', 'readelf.py'), option, path], stdout=subprocess.PIPE,
-                           stderr=subprocess.PIPE, cwd=core.REPO, env=dict(os.environ, LC_ALL='C', PYTHONPATH=core.REPO), timeout=600)
+        p = subprocess.run([sys.executable, os.path.join(core.REPO, 'scripts', 'readelf.py')] + option.split() + [path], stdout=subprocess.PIPE,
+                           stderr=subprocess.PIPE, cwd=core.REPO,
+                           # (stdout is decoded as latin-1 below: have the interpreter encode it that way, non-ASCII names occur)
+                           env=dict(os.environ, LC_ALL='C', PYTHONPATH=core.REPO, PYTHONIOENCODING='latin-1'), timeout=600)
         rc, out = _clone(option, path)
         sub_checked += 1
         if p.returncode == 0 and rc == 0 and p.stdout.decode('latin-1') != out:
             raise core.MachineryError('in-process clone output differs from the subprocess for %s %s' % (name, option))
     run.extra.update({'programs': programs, 'disagreements_checked': diffs, 'outside_envelope_oracle_refused': outside,
                       'excluded_pairs': skipped, 'subprocess_route_checked': sub_checked, 'sweep_images': len({j[1] for j in sweep_jobs}),
-                      'corpus_files': len(files)})
+                      'corpus_files': len(files), 'writers': wstats, 'writer_programs': len(wjobs),
+                      'writers_not_offered': c18_writers.NOT_OFFERED})
     run.samples = [{'file': j[1], 'option': j[2]} for j in jobs[::max(1, len(jobs) // 4)]][:4]
